@@ -6,7 +6,7 @@
  * the thread's stack, `execute(directory, command, "", output_file, env)`
  * exactly as tfel-check's TestLauncher::execute does) + for each manager a
  * command with a status known by construction (this executable re-executed
- * with `--child exit K | signal S | sleepexit MS K | out N K`) and an *order
+ * with `--child exit K | kill S | sleepexit MS K | out N K`) and an *order
  * script* enforced through the THELFER_TFEL_VERIF hook points:
  *
  *   natural        no intervention
@@ -64,7 +64,7 @@ namespace {
 
   // ------------------------------------------------------------ child side
   int childMain(int argc, char** argv) {
-    // --child exit K | signal S | sleepexit MS K | out N K
+    // --child exit K | kill S | sleepexit MS K | out N K
     const std::string k = argc > 2 ? argv[2] : "";
     const auto arg = [&](int i) { return argc > i ? std::atoi(argv[i]) : 0; };
     if (k == "exit") return arg(3);
@@ -79,7 +79,7 @@ namespace {
       verif::fdWrite(STDERR_FILENO, "err\n");
       return arg(4);
     }
-    if (k == "signal") {
+    if (k == "kill") {  // (not named "signal": the command text is part of the error message)
       rlimit rl{0, 0};
       ::setrlimit(RLIMIT_CORE, &rl);
       ::signal(arg(3), SIG_DFL);
@@ -265,7 +265,7 @@ namespace {
       case 0:
         return s + "exit " + std::to_string(c.value);
       case 1:
-        return s + "signal " + std::to_string(c.value);
+        return s + "kill " + std::to_string(c.value);
       case 2:
         return s + "sleepexit " + std::to_string(c.value) + " " + std::to_string(c.aux);
       default:
